@@ -1439,7 +1439,10 @@ func (i SmallInt) ModuloBigInt(other *BigInt) (Value, Value) {
 		return (i % oSmall).ToValue(), Undefined
 	}
 
-	return i.ToValue(), Undefined
+	// |other| >= 2**63 >= |i|, with equality only for MinSmallInt % ±2**63
+	iBigInt := big.NewInt(int64(i))
+	iBigInt.Rem(iBigInt, other.ToGoBigInt())
+	return SmallInt(iBigInt.Int64()).ToValue(), Undefined
 }
 
 func (i SmallInt) ModuloBigFloat(other *BigFloat) *BigFloat {
